@@ -120,6 +120,7 @@ func (e *Exec) enterLoop(li *loopInfo, phiVals map[ssa.Value]Val, st *State) {
 			t := e.evalContractBool(inv.Expr, env, "invariant")
 			e.assume(Implies(e.guard(), t))
 		}
+		e.probe("loop" + li.ord)
 	}
 }
 
@@ -210,7 +211,13 @@ func (e *Exec) checkInvariants(li *loopInfo, from *ssa.BasicBlock, cond *Term) {
 
 // ---------- mod-sets ----------
 
-var modsetCache = map[*ssa.Function]map[string]bool{}
+// keyed by the string mode too: component names differ between native and opaque strings
+type msKey struct {
+	f *ssa.Function
+	o bool
+}
+
+var modsetCache = map[msKey]map[string]bool{}
 var modsetInProgress = map[*ssa.Function]bool{}
 
 func (e *Exec) loopModset(li *loopInfo) map[string]bool {
@@ -233,7 +240,7 @@ func (e *Exec) loopModset(li *loopInfo) map[string]bool {
 
 // FuncModset computes the heap components a function may write (transitively), "*" if unknown.
 func (p *Program) FuncModset(fn *ssa.Function) map[string]bool {
-	if ms, ok := modsetCache[fn]; ok {
+	if ms, ok := modsetCache[msKey{fn, opaqueStrings}]; ok {
 		return ms
 	}
 	if modsetInProgress[fn] {
@@ -243,12 +250,12 @@ func (p *Program) FuncModset(fn *ssa.Function) map[string]bool {
 	defer delete(modsetInProgress, fn)
 	ms := map[string]bool{}
 	if c := p.ContractOf(fn); c != nil && c.Flags["pure"] {
-		modsetCache[fn] = ms
+		modsetCache[msKey{fn, opaqueStrings}] = ms
 		return ms
 	}
 	if len(fn.Blocks) == 0 {
 		ms["*"] = true
-		modsetCache[fn] = ms
+		modsetCache[msKey{fn, opaqueStrings}] = ms
 		return ms
 	}
 	frDummy := map[string]bool{}
@@ -260,7 +267,7 @@ func (p *Program) FuncModset(fn *ssa.Function) map[string]bool {
 	for _, an := range fn.AnonFuncs {
 		_ = an
 	}
-	modsetCache[fn] = ms
+	modsetCache[msKey{fn, opaqueStrings}] = ms
 	return ms
 }
 
